@@ -18,7 +18,7 @@ HARD_TIMEOUT = 60
 RULE = ("Well-nested histories over Vars 0-2 (dynamic), 3 (not dynamic), 4 (dynamic, validator) run on "
         "1-3 fresh Python threads with the interleaving of steps given by the case; ops: enter a binding "
         "form (mode 0: runtime.push_thread_bindings on a mapping with the prescribed iteration order + "
-        "try/finally pop, 1: compiled `binding` macro, 2: `with-bindings*`), leave normally / by exception, "
+        "try/finally pop, 1: compiled `binding` macro, 2: `with-bindings*`, 3: Python `with runtime.bindings(..)`), leave normally / by exception, "
         "compiled set!, noop, spawn work (future on a pool thread, bound-fn* on a new thread, bound-fn* in "
         "the same thread, plain thread) that reports the Vars at its start and after each of its own ops. "
         "Observable after every step: result code of the step, the work's reports, and the value of all "
@@ -107,7 +107,7 @@ def work_hist(rng, g, maxlen=4):
             if rng.random() < 0.2:
                 vs.insert(rng.randint(0, len(vs)), ND)
             pairs = [[v, g.val()] for v in vs]
-            ops.append(["enter", rng.choice([0, 1, 2]), pairs])
+            ops.append(["enter", rng.choice([0, 1, 2, 3]), pairs])
             if not fails(pairs):
                 depth += 1
         elif depth > 0:
@@ -149,7 +149,7 @@ def family_a(tier, rng):
                         g.close(0)
                         yield g.case()
                     if len(failing) == 1:      # through the real macro / with-bindings* (hash order)
-                        for mode in (1, 2):
+                        for mode in (1, 2, 3):
                             g = Gen(1)
                             prefix(g, 0, d)
                             g.enter(0, elems, mode=mode, bad=True)
@@ -165,7 +165,7 @@ def random_step(rng, g, t, maxdepth=4, spawn=True):
     if r < 0.30 and d < maxdepth:
         k = rng.randint(1, 3)
         vs = rng.sample([0, 1, 2, VV], k)
-        mode = rng.choice([0, 0, 1, 2])
+        mode = rng.choice([0, 0, 1, 2, 3])
         bad = False
         f = rng.random()
         if f < 0.15:
@@ -217,7 +217,7 @@ def family_c(tier, rng):
         [("enter", [0, 1], 1, False), ("set", 0), ("leave", True)],
         [("enter", [0], 0, False), ("enter", [1, ND], 0, False), ("leave", False)],
         [("enter", [2, VV], 2, True), ("enter", [0, VV], 1, False), ("leave", False)],
-        [("enter", [1], 2, False), ("spawn", 0), ("leave", True)],
+        [("enter", [1], 3, False), ("spawn", 0), ("leave", True)],
     ]
     pairs = [(0, 1), (0, 2), (1, 3), (2, 3), (0, 0), (1, 1)]
     for a, b in pairs:
